@@ -76,6 +76,9 @@ def gen_tree(rng, scratch: str) -> typing.Tuple[Tree, typing.List[bytes], typing
     t.symlink(b"links-dir/cycle-a", b"cycle-b")
     t.symlink(b"links-dir/cycle-b", b"cycle-a")
     t.symlink(b"links-dir/chain-link", b"rel-link.txt")
+    # a link that passes through a symlinked directory which is stored later in the archive
+    t.symlink(b"links-dir/a-through-dirlink.txt", b"../zz-dirlink/in.txt")
+    t.symlink(b"zz-dirlink", b"links-dir/tdir")
     # a directory can be left implicit only if some member lies below it
     nonempty = {d for d in t.dirs() if any(p.startswith(d + b"/") and n["kind"] != "dir" for p, n in t.nodes.items())}
     implicit = [x for x in t.dirs() if x in nonempty and rng.random() < 0.4]
@@ -87,7 +90,8 @@ def selectors_of(t: Tree, rng) -> typing.List[bytes]:
     for p, n in sorted(t.nodes.items()):
         sels.append(b"/" + p)
     # through links
-    sels += [b"/links-dir/dir-link/in.txt", b"/links-dir/dir-link", b"/links-dir/dangling-link", b"/links-dir/cycle-a"]
+    sels += [b"/links-dir/dir-link/in.txt", b"/links-dir/dir-link", b"/links-dir/dangling-link", b"/links-dir/cycle-a",
+             b"/zz-dirlink/in.txt", b"/zz-dirlink"]
     # missing names and hostile suffixes
     some = [s for s in sels if s]
     for _ in range(12):
@@ -228,6 +232,46 @@ def real_file_only(chk: Check, sc: Scratch) -> None:
         site.close()
 
 
+def nested_cache_lookalike(chk: Check, sc: Scratch) -> None:
+    """An archive inside an archive, the outer one also holding a member named like the inner
+    one's index cache; the working directory holds a real dbm shelf of that name."""
+    import shelve
+    root = sc.sub("nest")
+    outside = sc.sub("nest-cwd")
+    inner = Tree().file("in.txt", "inner file\n").file("d/e.txt", "e\n")
+    outer = Tree().file("a.txt", "a\n").file("inner.zip", inner.to_zip(date_time=(2020, 1, 1, 0, 0, 0)))
+    outer.file(".cache.pygopherd.zip3.inner.zip", b"not really a cache")
+    Tree().file(ARCH + b".zip", outer.to_zip(date_time=(2021, 1, 1, 0, 0, 0))).materialize(root)
+    with shelve.open(os.path.join(outside, ".cache.pygopherd.zip3.inner.zip"), "n") as db:
+        db["0"] = {"OUTSIDE-SHELF-ENTRY.txt": "1", "in.txt": "1"}
+        db["1"] = "in.txt"
+    site = driver.Site(root, handlers=driver.HANDLERS_FULL)
+    cwd = os.getcwd()
+    os.chdir(outside)
+    try:
+        before = sorted(os.listdir(outside))
+        for sel in (b"/inner.zip", b"/inner.zip/in.txt", b"/inner.zip/d", b"/inner.zip/OUTSIDE-SHELF-ENTRY.txt"):
+            for view in ("gopher", "http", "gemini"):
+                req, tls = reqs.render(view, b"/" + ARCH + b".zip" + sel)
+                audit.RECORDER.start()
+                r = site.request(req, tls=tls)
+                evs = audit.RECORDER.stop()
+                touched = [e for e in evs if e.paths and any(audit.under(p, outside) for p in e.paths)]
+                sample = {"selector": sel, "view": view, "reply": r.data[:200], "log": r.log[:3], "events": [repr(e) for e in touched[:4]]}
+                if b"OUTSIDE-SHELF-ENTRY" in r.data and sel != b"/inner.zip/OUTSIDE-SHELF-ENTRY.txt":
+                    chk.witness("C16/nested-archive-index-read-from-working-directory", sample)
+                    return
+                if touched:
+                    chk.witness("C16/nested-archive-cache-touched-working-directory:%s" % touched[0].name, sample)
+                    return
+                chk.case(("nested-cache-lookalike", sel, view), sample if view == "gopher" and sel == b"/inner.zip" else None)
+        if sorted(os.listdir(outside)) != before:
+            chk.witness("C16/files-created-in-working-directory", {"before": before, "after": sorted(os.listdir(outside))})
+    finally:
+        os.chdir(cwd)
+        site.close()
+
+
 def escaping_symlink(chk: Check, sc: Scratch) -> None:
     """A symlink member that points out of the archive resolves to nothing."""
     root = sc.sub("esc")
@@ -271,6 +315,7 @@ def main() -> int:
                 differential(chk, sc, i)
             if quick or chk.args.shard == 0:
                 real_file_only(chk, sc)
+                nested_cache_lookalike(chk, sc)
                 escaping_symlink(chk, sc)
     return chk.finish(
         rule="case = (selector, protocol view): the reply for /T.zip/<sel> must equal the reply for /T/<sel> (the same "
